@@ -66,6 +66,14 @@ def run_seed(name, tier):
     return name, dict(property=meta.get("property"), caught_by=caught, results=res)
 
 
+def run_seed_safe(name, tier):
+    try:
+        return run_seed(name, tier)
+    except Exception as e:  # pylint: disable=broad-except
+        print(f"{name}: ERROR {type(e).__name__}: {str(e)[:200]}", flush=True)
+        return name, None
+
+
 def main():
     args = sys.argv[1:]
     jobs, tier = 4, "quick"
@@ -83,13 +91,18 @@ def main():
     path = os.path.join(SEEDED, "MATRIX.json")
     matrix = json.load(open(path)) if os.path.exists(path) else {}
     with ThreadPoolExecutor(jobs) as ex:
-        for name, r in ex.map(lambda n: run_seed(n, tier), names):
+        for name, r in ex.map(lambda n: run_seed_safe(n, tier), names):
+            if r is None:
+                continue
             if ONLY and name in matrix:
                 matrix[name]["results"].update(r["results"])
                 matrix[name]["caught_by"] = sorted(c for c, x in matrix[name]["results"].items() if x["rc"] == 1)
             else:
                 matrix[name] = r
+            json.dump(matrix, open(path + ".tmp", "w"), indent=1, sort_keys=True)
+            os.replace(path + ".tmp", path)
     json.dump(matrix, open(path, "w"), indent=1, sort_keys=True)
+    names = [n for n in names if n in matrix]
     missed = [n for n in names if not matrix[n]["caught_by"]]
     print(f"{len(names)} seeds, {len(missed)} not caught: {missed}")
     alarms = {n: matrix[n]["caught_by"] for n in names if matrix[n]["caught_by"] and n.startswith(("ref-", "ok-"))}
